@@ -53,6 +53,8 @@ type ConcWriters struct {
 	lastP   int
 	lastM   int
 	pending []explore.Violation
+	faultsInit int
+	faults  int    // head-list writes the explorer may still let fail (storage faults; the writes are gates then)
 	pre     int    // > 0: entries of a second remote writer merged (and reported replicated) before the threads start
 	remote2 *sim.Instance
 	merge   int    // > 0: one more thread merges this many entries of a remote writer while the writers write
@@ -227,6 +229,9 @@ func NewConcWritersPre(kind string, n, per int, locks bool, merge int, status bo
 	}
 	sim.UsePointGates(w.net.Gates, pointDetail)
 	w.net.Gates.Enable(func(kind, peer, key, caller string) bool {
+		if kind == "cache.put" {
+			return w.faultsInit > 0 && peer == "W" && strings.HasSuffix(key, "_localHeads")
+		}
 		if kind != "point" || key == "driver" {
 			return false
 		}
@@ -303,6 +308,13 @@ func (w *ConcWriters) Enabled() []string {
 	for _, l := range w.net.Gates.Parked() {
 		out = append(out, l)
 	}
+	if w.faults > 0 {
+		for _, l := range w.net.Gates.Parked() {
+			if strings.HasPrefix(l, "cache.put|") {
+				out = append(out, "fail:"+l)
+			}
+		}
+	}
 	if w.locks && w.last != "" {
 		// lock-granularity worlds count preemptions: the thread that made the last step comes first, so that
 		// taking any other enabled thread is the deviation
@@ -326,7 +338,12 @@ func threadOf(label string) string {
 
 func (w *ConcWriters) Do(a string) error {
 	w.last = threadOf(a)
-	if err := w.net.Gates.Release(a, sim.AnswerOK); err != nil {
+	if strings.HasPrefix(a, "fail:") {
+		w.faults--
+		if err := w.net.Gates.Release(a[5:], sim.AnswerFail); err != nil {
+			return err
+		}
+	} else if err := w.net.Gates.Release(a, sim.AnswerOK); err != nil {
 		return err
 	}
 	if err := sim.Quiesce(); err != nil {
@@ -409,7 +426,9 @@ func (w *ConcWriters) Final() []explore.Violation {
 			out = append(out, explore.Violation{Signature: "acknowledged-write-not-visible-once", Detail: fmt.Sprintf("write %s acknowledged but recorded %d times before restart (log %v)", p, before[p], before)})
 		}
 	}
-	if msg := viewVsReplay(w.store); msg != "" {
+	// (a write that failed on a storage fault leaves its entry in the in-memory log without a view update; the
+	// statement speaks about calls that returned success only, so the view is not compared with the log then)
+	if msg := viewVsReplay(w.store); msg != "" && nerr == 0 {
 		out = append(out, explore.Violation{Signature: "view-differs-from-log-after-concurrent-writes", Detail: msg})
 	}
 	// restart
@@ -507,6 +526,7 @@ func (w *ConcWriters) Close() {
 }
 
 type C17Arg struct {
+	Faults                       int // storage faults: head-list writes that may fail
 	Pre                          int
 	Merge                        int
 	Locks                        bool
@@ -528,6 +548,9 @@ func (a C17Arg) Name() string {
 	if a.Pre > 0 {
 		k += fmt.Sprintf("+premerged%d", a.Pre)
 	}
+	if a.Faults > 0 {
+		k += fmt.Sprintf("+headwritefaults%d", a.Faults)
+	}
 	return fmt.Sprintf("concwriters/%s/n%d/per%d/dev%d/shard%d.%d", k, a.N, a.Per, a.Bound, a.Shard, a.Shards)
 }
 
@@ -545,7 +568,7 @@ func c17Units(base C17Arg, shards int) []explore.Unit {
 func init() {
 	explore.Register(&explore.CheckDef{
 		ID: "C17", Level: "model_checking",
-		Rule: "N goroutines each issue one write on one store (event log; key-value and document store with the same or distinct keys); every writer is stepped by the explorer through the schedule points begin / after log append / after head persisted / between reading the log and locking the index / after view update (hooks H4, H5); all interleavings for N=2 and N=3 (N=3 bounded in quick), all schedules with <= 2 deviations for N=4..8; lock-granularity units: the store and index files are built with the vsync shim, every Lock/RLock of the write path, of replicationLoadComplete and of the index implementations is a schedule point too, and all schedules with <= 2 (thorough: 4) preemptions are run for two writers and for one writer against a thread that merges a remote writer's two entries (Sync); every execution runs to completion, then the instance is closed, reopened on the same cache and loaded. Oracle: acknowledged calls returned pairwise distinct entries, each recorded exactly once before restart and exactly once after reopen+Load(-1), and the key-value / document view equals the replay of the store's own log once all writers have returned. Non-trivial = executions with at least one deviation from the canonical (sequential) schedule.",
+		Rule: "N goroutines each issue one write on one store (event log; key-value and document store with the same or distinct keys); every writer is stepped by the explorer through the schedule points begin / after log append / after head persisted / between reading the log and locking the index / after view update (hooks H4, H5); all interleavings for N=2 and N=3 (N=3 bounded in quick), all schedules with <= 2 deviations for N=4..8; lock-granularity units: the store and index files are built with the vsync shim, every Lock/RLock of the write path, of replicationLoadComplete and of the index implementations is a schedule point too, and all schedules with <= 2 (thorough: 4) preemptions are run for two writers and for one writer against a thread that merges a remote writer's two entries (Sync); every execution runs to completion, then the instance is closed, reopened on the same cache and loaded. Units with a storage fault let one write of the cached local head fail (explorer's choice which). Oracle: acknowledged calls returned pairwise distinct entries, each recorded exactly once before restart and exactly once after reopen+Load(-1), and the key-value / document view equals the replay of the store's own log once all writers have returned. Non-trivial = executions with at least one deviation from the canonical (sequential) schedule.",
 		Units: func(tier string) []explore.Unit {
 			var u []explore.Unit
 			u = append(u, c17Units(C17Arg{N: 2, Per: 1, Bound: -1}, 8)...)
@@ -556,6 +579,11 @@ func init() {
 			}
 			for _, k := range []string{"keyvalue-same", "keyvalue-distinct", "docstore-same"} {
 				u = append(u, c17Units(C17Arg{Kind: k, N: 2, Per: 1, Bound: kb}, 8)...)
+			}
+			// storage faults: the write of the cached local head may fail once (a write acknowledged all the same must
+			// still be recoverable)
+			for _, k := range []string{"eventlog", "keyvalue-same"} {
+				u = append(u, c17Units(C17Arg{Kind: k, N: 2, Per: 1, Bound: 3, Faults: 1}, 8)...)
 			}
 			// lock granularity: every Lock/RLock of the write path and of the index implementations is a point
 			lb := 2
@@ -601,7 +629,11 @@ func init() {
 					if k == "" {
 						k = "eventlog"
 					}
-					return NewConcWritersMerge(k, a.N, a.Per, a.Locks, a.Merge)
+					w, err := NewConcWritersMerge(k, a.N, a.Per, a.Locks, a.Merge)
+					if err == nil {
+						w.faults, w.faultsInit = a.Faults, a.Faults
+					}
+					return w, err
 				},
 				Bound:    a.Bound, Horizon: 400, Stats: c.Stats, Journal: c.JournalHist, Expired: c.Expired,
 				Shards: a.Shards, Shard: a.Shard,
